@@ -277,6 +277,7 @@ class Engine:
         pr = PathResult()
         pr.ctx = ctx
         pr.leaves = B.leaves
+        pr.seq_leaves = B.seq_leaves
         pr.args = args
         pr.env = env
         pr.cmod = cmod
@@ -469,7 +470,7 @@ class Engine:
                         ob.detail = 'solver returned unknown (path %d)' % pi
                     continue
                 ob.status = 'violation'
-                ob.model = model_assignment(m, pr.leaves)
+                ob.model = model_assignment(m, pr.leaves, getattr(pr, 'seq_leaves', None))
                 ob.exact = not pr.ctx.atoms.info
                 ob.fail_path = pr
                 ob.detail = 'refuted on path %d (%s)' % (pi, pr.outcome)
@@ -499,7 +500,7 @@ class Engine:
                 side.seconds += time.time() - t0
                 if r == 'sat':
                     side.status = 'violation'
-                    side.model = model_assignment(m, pr.leaves)
+                    side.model = model_assignment(m, pr.leaves, getattr(pr, 'seq_leaves', None))
                     side.detail = '%s: %s can be violated' % (lb, cond)
                     side.exact = not pr.ctx.atoms.info
                     side.fail_path = pr
@@ -559,7 +560,7 @@ class Engine:
             ob.status = 'undecided'
             ob.detail = ('engine lost a path: inputs satisfying the '
                          'precondition are covered by no explored path, '
-                         'e.g. %s' % model_assignment(m, paths[0].leaves))
+                         'e.g. %s' % model_assignment(m, paths[0].leaves, getattr(paths[0], 'seq_leaves', None)))
             self.errors.append('%s: %s' % (ob.name, ob.detail))
         self.obligations.append(ob)
 
@@ -662,7 +663,14 @@ class Engine:
                     if v is False:
                         self.native_clause_failures.append(
                             (c, cfg, specs, lb, text, a, r))
-            envn = {k: v for k, v in a.items()}
+            envn = {}
+            for k, v in a.items():
+                if isinstance(v, list):
+                    envn[k + '.len'] = len(v)
+                    for i_, x_ in enumerate(v):
+                        envn['%s[%d]' % (k, i_)] = x_
+                else:
+                    envn[k] = v
             sel = None
             for pr in paths:
                 try:
@@ -774,8 +782,24 @@ def compare_value(sv, nv, envn, atoms):
     return None
 
 
-def model_assignment(m, leaves):
+def model_assignment(m, leaves, seq_leaves=None):
     asg = {}
+    for name, (n, consts, spec) in (seq_leaves or {}).items():
+        nv = m.eval(n, model_completion=True)
+        L = nv.as_long() if z3.is_int_value(nv) else spec.min_len
+        L = max(spec.min_len, min(L, 8))
+        mid = (spec.el.lo + spec.el.hi) / 2.0
+        arr = [mid] * L
+        for key, (idx, c) in consts.items():
+            iv = m.eval(idx, model_completion=True)
+            cv = m.eval(c, model_completion=True)
+            if z3.is_int_value(iv) and 0 <= iv.as_long() < L:
+                if z3.is_rational_value(cv):
+                    arr[iv.as_long()] = cv.numerator_as_long() / cv.denominator_as_long()
+                elif z3.is_algebraic_value(cv):
+                    a = cv.approx(20)
+                    arr[iv.as_long()] = a.numerator_as_long() / a.denominator_as_long()
+        asg[name] = arr
     for name, (const, spec) in leaves.items():
         v = m.eval(const, model_completion=True)
         if z3.is_int_value(v):
